@@ -520,17 +520,25 @@ def insert_header(text, requires, ensures, extra=''):
     return head + '\n' + ''.join(parts) + text[pos:]
 
 
-def insert_loops(text, loops):
+def insert_loops(text, loops, total=None):
     """loops: {ordinal: dict(invariant=[(label, expr)], decreases='..', ensures=[...], pre='text before loop')}"""
     if not loops:
         return text
     ft = FnText(text)
     found = find_loops(ft)
     edits = []
+    # the invariants were written for a function with exactly these loops: with a loop added, removed or re-ordered they would be attached
+    # to a loop they were not written for (and fail for no semantic reason) — never verify in that case
+    if total is not None and len(found) != total:
+        raise Lost('the function has %d loop(s), its loop annotations were written for %d' % (len(found), total))
     for n, spec in loops.items():
         if n >= len(found):
             raise Lost('loop #%d not found' % n)
         kw, ob, cb = found[n]
+        if spec.get('over'):
+            hdr_ = squash(ft.text[ft.toks[kw].start:ft.toks[ob].start])
+            if squash(spec['over']) not in hdr_:
+                raise Lost('loop #%d no longer iterates over `%s`' % (n, spec['over']))
         s = '\n'
         inv = spec.get('invariant') or []
         if inv:
